@@ -63,6 +63,16 @@ logger = logging.getLogger(__name__)
 # -----------------------------------------------------------------------------
 GATT_SERVER_DEFAULT_MAX_MTU = 517
 
+# An attribute can be written by a peer when it is marked writeable, or when it
+# carries a write security requirement (which implies that it can be written once
+# the requirement is met).
+_WRITE_PERMISSIONS = (
+    att.Attribute.WRITEABLE
+    | att.Attribute.WRITE_REQUIRES_ENCRYPTION
+    | att.Attribute.WRITE_REQUIRES_AUTHENTICATION
+    | att.Attribute.WRITE_REQUIRES_AUTHORIZATION
+)
+
 
 # -----------------------------------------------------------------------------
 # Helpers
@@ -1180,7 +1190,17 @@ class Server(utils.EventEmitter):
             )
             return
 
-        # TODO: check permissions
+        # Check that the attribute can be written at all
+        if not attribute.permissions & _WRITE_PERMISSIONS:
+            self.send_response(
+                bearer,
+                att.ATT_Error_Response(
+                    request_opcode_in_error=request.op_code,
+                    attribute_handle_in_error=request.attribute_handle,
+                    error_code=att.ATT_WRITE_NOT_PERMITTED_ERROR,
+                ),
+            )
+            return
 
         # Check the request parameters
         if len(request.attribute_value) > GATT_MAX_ATTRIBUTE_VALUE_SIZE:
@@ -1222,7 +1242,9 @@ class Server(utils.EventEmitter):
         if attribute is None:
             return
 
-        # TODO: check permissions
+        # Check that the attribute can be written at all
+        if not attribute.permissions & _WRITE_PERMISSIONS:
+            return
 
         # Check the request parameters
         if len(request.attribute_value) > GATT_MAX_ATTRIBUTE_VALUE_SIZE:
